@@ -46,12 +46,17 @@ func registerAll() {
 	reg("X5", "can-copy / copy agreement per type: constant-false iff always-error; non-constant predicates refuse on the same receiver state the copy fails on", ruleX5)
 	reg("X6", "copy independence: reference-typed fields of a copy never receive a value loaded from the source", ruleX6)
 
+	reg("R1", "dirty-mark typestate: every slab mutated or created on a success path is stored or removed (stores guarded by !inlined count; pure mutators export the obligation to their callers) and nothing is left open at the API boundary", ruleR1)
+	reg("R2", "every id from GenerateSlabID becomes a slab identity, is delegated, or is returned", ruleR2)
+	reg("R3", "detach => remove (merge, bulk pop of children, inline, root promotion, external collision group collapse/pop) and uninline => store, on every success path", ruleR3)
+	reg("R6", "reject-before-effect: in every function that can return a request rejection, no effect precedes the rejection on any path (interprocedural)", ruleR6)
+
 	const tCFG = "CFG path rules on go/ssa (must-precede, edge dominance, loop-iteration coverage, error-edge reachability)"
 	propTable["C03"] = &PropSpec{
 		ID:    "C03",
-		Rules: []string{"S1", "S2", "S4", "S5"},
-		Explanation: "registers are written or deleted only by routines reachable exclusively through the commit entry points (call-graph closure over every exported/API function); Ledger.SetValue only inside the BaseStorage adapter; every collector of commit keys guards each key by address != AddressUndefined and records every owned key; every completed apply-loop iteration issues a register write; no register-write/encode/worker error is swallowed by a commit that returns nil.",
-		NotDecided: "that every mutated slab has been put into the write set before the API call returns (dirty-marking discipline R1/R2/R4, not yet decided in this revision), that the encoded content equals the in-memory content (C07), determinism (C04).",
+		Rules: []string{"R1", "R2", "R4", "S1", "S2", "S4", "S5"},
+		Explanation: "every slab mutated or created on a success path is stored or removed before the API call returns (typestate over slab objects with interprocedural summaries; re-keyed slabs need a later store; stores guarded by !inlined hand over to the notify-parent rule), every allocated id becomes a slab identity, every exported mutator notifies its parent; registers are written or deleted only by routines reachable exclusively through the commit entry points (call-graph closure over every exported/API function); Ledger.SetValue only inside the BaseStorage adapter; every collector of commit keys guards each key by address != AddressUndefined and records every owned key; every completed apply-loop iteration issues a register write; no register-write/encode/worker error is swallowed by a commit that returns nil.",
+		NotDecided: "that the encoded content equals the in-memory content (C07), determinism (C04); batch builders are analysed with weak updates on their slab collections.",
 		Technique:  "call-graph reachability (who-may-write-registers) + " + tCFG,
 	}
 	propTable["C04"] = &PropSpec{
@@ -77,28 +82,35 @@ func registerAll() {
 	}
 	propTable["C10"] = &PropSpec{
 		ID:    "C10",
-		Rules: []string{"R4", "R5", "L8"},
+		Rules: []string{"R4", "R5", "R1", "L8"},
 		Explanation: "every exported mutator of Array/OrderedMap (computed from may-effects on slab state over a closure-granular call graph) calls notifyParentIfNeeded on every success path (extra-data-only mutators may store the standalone root on the not-inlined edge instead); every child handed out by lookup/mutable iteration or stored by Set/Insert passes setCallbackWithChild on every success path with the container's own inline limit (array: maxInlineArrayElementSize; map: maxInlineMapValueSize of that element's key storable size); read-only iterators arm the mutation callback; whatever replaces a container's root carries the id read from the previous root before any id change, and ValueID does not depend on the inlined state.",
 		NotDecided: "that the callback finds the right element after arbitrary parent restructuring (mutableElementIndex arithmetic), 'inlined exactly when it fits' (value-dependent), validity of ancestors.",
 		Technique:  "must-pass-through path rule over go/ssa CFG with interprocedural must-notify summaries; may-effect summaries to compute the mutator set; value-flow checks on callback arguments and root ids",
 	}
 	propTable["C11"] = &PropSpec{
 		ID:    "C11",
-		Rules: []string{"R7", "N1", "N2", "N3"},
+		Rules: []string{"R7", "N1", "N2", "N3", "R3"},
 		Explanation: "every Storable returned by an exported Array/OrderedMap method is the result of uninlineStorableIfNeeded (so a detached inlined child becomes a stored standalone slab) and that helper uninlines both slab kinds; the mutableElementIndex entry of a removed/overwritten child is deleted, guarded only by identity tests; parent-updater callbacks re-set the child only on paths that passed the true edge of a ValueID.equal test and after a fresh lookup; parentUpdater is assigned only by setParentUpdater and cleared only on the not-found edge of its own invocation.",
-		NotDecided: "that re-validation compares the right element after arbitrary histories; that Uninline itself stores the slab (dirty-marking rules R1/R3', not yet decided in this revision).",
+		NotDecided: "that re-validation compares the right element after arbitrary histories; equality of identity after reattachment.",
 		Technique:  "value-flow on return operands, control-dependence slices, edge-restricted reachability in callback closures",
+	}
+	propTable["C08"] = &PropSpec{
+		ID:    "C08",
+		Rules: []string{"R1", "S3", "S7", "S8", "S9"},
+		Explanation: "a slab served from the read cache (or decoded) that is then mutated re-enters the write set because every mutation ends in a store of that object on every success path; commit moves the very same object from the write set into the cache (nil after a deletion) and only on the success edge; apart from that only DecodeSlab results under the same id enter the cache, controlled by the cache flag; lookups consult write set, cache, ledger in that order and a hit returns the found entry; observers cannot reach a writer of the write set.",
+		NotDecided: "equality of decoded and original content (C07) and the compact-map reload exception; byte-identity under all schedules.",
+		Technique:  "typestate over slab objects + field-write ownership + dominance of lookups",
 	}
 	propTable["C09"] = &PropSpec{
 		ID:    "C09",
-		Rules: []string{"R7", "X2", "X1"},
-		Explanation: "every Storable handed back by an exported Array/OrderedMap method went through uninlineStorableIfNeeded (a detached inlined child becomes a stored standalone slab the caller can dispose of); every field of a slab/element type that can hold a slab reference is read by the ChildStorables call graph (so references are enumerable and removable), with sibling links and own ids exempt by table; every slab/element kind is handled by every family type switch.",
-		NotDecided: "'referenced exactly once' and owner equality (facts about runtime id values); the detach=>remove / alloc=>store typestate rules R2/R3 are not decided in this revision.",
+		Rules: []string{"R1", "R2", "R3", "R7", "X2", "X1"},
+		Explanation: "every new or modified slab is stored, every allocated id becomes a slab identity, every detach event (merge, bulk pop of children, inline, root promotion, external collision group collapse/pop) removes the register and uninline stores it, on every success path; every Storable handed back by an exported Array/OrderedMap method went through uninlineStorableIfNeeded (a detached inlined child becomes a stored standalone slab the caller can dispose of); every field of a slab/element type that can hold a slab reference is read by the ChildStorables call graph (so references are enumerable and removable), with sibling links and own ids exempt by table; every slab/element kind is handled by every family type switch.",
+		NotDecided: "'referenced exactly once' and owner equality (facts about runtime id values).",
 		Technique:  "value-flow on return operands, field-read coverage over the ChildStorables call graph, type-switch exhaustiveness over closed families",
 	}
 	propTable["C12"] = &PropSpec{
 		ID:    "C12",
-		Rules: []string{"K1", "X1"},
+		Rules: []string{"K1", "R6", "X1", "R1", "R3"},
 		Explanation: "the collision-limit rejection is control dependent on level == 0, on a comparison with maxCollisionLimitPerDigest and on errors.As(KeyNotFoundError) of Get with the same key parameter (so updates of existing keys are never refused), and no mutation, store or allocation precedes it on any path; every element kind (single element, inline group, external group) and both element-list kinds are handled by every family type switch or by an erroring default.",
 		NotDecided: "dictionary semantics under arbitrary digest assignments; correctness of spill/collapse transitions (value-dependent).",
 		Technique:  "control-dependence slices and backward reachability on go/ssa; type-switch exhaustiveness",
@@ -112,16 +124,16 @@ func registerAll() {
 	}
 	propTable["C17"] = &PropSpec{
 		ID:    "C17",
-		Rules: []string{"X5", "X6"},
+		Rules: []string{"X5", "X6", "R1", "R2"},
 		Explanation: "for every type with a can-copy/copy pair the predicate is constant false exactly when the operation fails on every path, and non-constant predicates refuse on exactly the receiver state the operation fails on (the rest is delegated to the elements' own pair); every slice/map/pointer field of a copy receives a fresh or cloned value, never one loaded from the source.",
 		NotDecided: "equality of content, validity 'as if built by individual operations' (tail-rebalance arithmetic), byte-array conversions.",
 		Technique:  "return-constant and control-dependence comparison of sibling methods; alias check on stores into the fresh result",
 	}
 	propTable["C18"] = &PropSpec{
 		ID:    "C18",
-		Rules: []string{"E1", "E2", "K1"},
-		Explanation: "each rejection constructor named by the property ends in the contract's category constructor (index/range/absent key/element count/element type -> UserError; collision limit, undefined id, slab not found -> FatalError), every other constructor is categorised, the category types keep Unwrap and the wrap helper recognises all three categories; no error returned by a caller-supplied component (Ledger, BaseStorage, SlabStorage, DigesterBuilder, ValueComparator, HashInputProvider) leaves a function raw; the collision-limit rejection precedes every effect.",
-		NotDecided: "'leaves no trace' for the other rejections (reject-before-effect rule R6 over all callers is not decided in this revision); message text.",
+		Rules: []string{"R6", "E1", "E2", "K1"},
+		Explanation: "in every function that can return a request rejection (index/range out of bounds, absent key, collision limit, element-count limit, undefined identifier; propagated interprocedurally but not across the storage component boundary) no mutation, store, removal, id allocation, write-set change or Value.Storable call precedes the rejection on any path; each rejection constructor named by the property ends in the contract's category constructor (index/range/absent key/element count/element type -> UserError; collision limit, undefined id, slab not found -> FatalError), every other constructor is categorised, the category types keep Unwrap and the wrap helper recognises all three categories; no error returned by a caller-supplied component (Ledger, BaseStorage, SlabStorage, DigesterBuilder, ValueComparator, HashInputProvider) leaves a function raw; the collision-limit rejection precedes every effect.",
+		NotDecided: "message text ('error names the cause'); effects inside client callbacks (Value.Storable is treated as an effect).",
 		Technique:  "constructor delegation resolution, taint from interface/func-value call results to return operands, backward reachability",
 	}
 	propTable["C20"] = &PropSpec{
